@@ -523,7 +523,7 @@ static void p0_run(uint64_t idx, vh_rng_t * rng) {
     (void) rng;
     for (i = PREFIX - 1; i >= 0; i--) { digits[i] = (int) (pre % ALPHA); pre /= ALPHA; }
     vh_case_desc("exhaustive histories of length %d, capacity %d, prefix letters %d%d%d (0 push,1 push+text,2 push+quoted text,3 errorpop,4 SYST:ERR?,5 clear,6 count)", L, N, digits[0], digits[1], digits[2]);
-    vh_watchdog(30);
+    vh_watchdog(vh_args.thorough ? 60 : 10);
     rig_open(&rig, N);
     for (s = 0; s < nsuf; s++) {
         uint64_t t = s; long calls, k; int hold = (int) ((s + idx) % 3);
@@ -616,7 +616,7 @@ static void p1_run(uint64_t idx, vh_rng_t * rng) {
     vh_buf_addc(&arena, 0);
     for (i = 0; i < nops; i++) if (ops[i].kind == OP_PUSHT) ops[i].text = arena.p + offs[i];
     vh_case_desc("random history: %d operations, capacity %d, charset %d, client keeps %d, %d%% pushes, %d%% with text, allocation fails %d/8", nops, N, charset, hold, pw_push, p_text, p_fail_num);
-    vh_watchdog(30);
+    vh_watchdog(vh_args.thorough ? 60 : 10);
     rig_open(&rig, N);
     run_history(rig.v, N, ops, nops, hold, 0, rig.qmem);
     rig_close(&rig);
